@@ -265,7 +265,7 @@ def run_case(case, acc, with_rollup_tool=False):
             assign_confidence(dsets, max_workers=1, scores=scores, descs=[True] * cfg["ncoll"], dest_dir=out,
                               prefixes=prefixes, decoys=cfg["decoys"], deduplication=cfg["dedup"],
                               do_rollup=cfg["rollup"], file_root="r." if with_rollup_tool else "")
-        except Exception as e:
+        except (Exception, SystemExit) as e:  # the PEP step ends the process (SystemExit) when a level has no targets
             add("raises:" + exc_signature(e), f"assign_confidence raised {type(e).__name__}: {e}")
             return "raised"
         root = "r." if with_rollup_tool else ""
